@@ -118,3 +118,14 @@ VARIANTS += [
     dict(id="c01-inmem-values-overwritten-with-none", prop="C01", file=IM, expect="R01.14",
          old="            if values is not None:\n                trial.values = values\n", new="            trial.values = values\n"),
 ]
+
+RDB1 = "optuna/storages/_rdb/storage.py"
+VARIANTS += [
+    # F14 shape: values written before the claim is tested
+    dict(id="c01-f14-shape-reintroduced", prop="C01", file=RDB1, expect="R01.15",
+         old="                if state == TrialState.RUNNING and trial.state != TrialState.WAITING:\n                    return False\n\n                if values is not None:\n                    for objective, v in enumerate(values):\n                        self._set_trial_value_without_commit(session, trial_id, objective, v)\n",
+         new="                if values is not None:\n                    for objective, v in enumerate(values):\n                        self._set_trial_value_without_commit(session, trial_id, objective, v)\n\n                if state == TrialState.RUNNING and trial.state != TrialState.WAITING:\n                    return False\n"),
+    dict(id="c01-rdb-start-time-kept-if-set", prop="C01", file=RDB1, expect="R01.10",
+         old="                if state == TrialState.RUNNING:\n                    trial.datetime_start = datetime.now()\n",
+         new="                if state == TrialState.RUNNING and trial.datetime_start is None:\n                    trial.datetime_start = datetime.now()\n"),
+]
